@@ -2,7 +2,10 @@ module neatverif
 
 go 1.18
 
-require github.com/yaricom/goNEAT/v4 v4.0.0
+require (
+	github.com/yaricom/goNEAT/v4 v4.0.0
+	gopkg.in/yaml.v3 v3.0.1
+)
 
 require (
 	github.com/pkg/errors v0.9.1 // indirect
@@ -10,7 +13,6 @@ require (
 	github.com/spf13/cast v1.5.1 // indirect
 	golang.org/x/exp v0.0.0-20230321023759-10a507213a29 // indirect
 	gonum.org/v1/gonum v0.14.0 // indirect
-	gopkg.in/yaml.v3 v3.0.1 // indirect
 )
 
 replace github.com/yaricom/goNEAT/v4 => /repo
